@@ -165,6 +165,7 @@ func evalWriter(c *wcase) string {
 	var last uint64
 	for i := 0; i < 3; i++ {
 		var err error
+		nbefore := len(cp.bufs)
 		if c.Kind == "streamwriter" {
 			err = sw.Write(msgs[c.Msg])
 		} else {
@@ -173,12 +174,13 @@ func evalWriter(c *wcase) string {
 		if err != nil {
 			return "write: " + err.Error()
 		}
-		if len(cp.bufs) != i+1 {
-			return "not exactly one transport write per message"
+		var emitted []byte
+		for _, b := range cp.bufs[nbefore:] {
+			emitted = append(emitted, b...)
 		}
-		f, ok := gm.ParseExactly(cp.bufs[i])
+		f, ok := gm.ParseExactly(emitted)
 		if !ok {
-			return fmt.Sprintf("emitted bytes are not one frame: % x", cp.bufs[i])
+			return fmt.Sprintf("emitted bytes are not one frame: % x", emitted)
 		}
 		if !f.V2 || !f.Signed() {
 			return "frame of a keyed writer does not carry the signed flag"
